@@ -170,9 +170,9 @@ func runC06(e *Env) {
 			gen(append(p, o), max)
 		}
 	}
-	maxLen := 3
+	maxLen := 4
 	if e.Thorough {
-		maxLen = 4
+		maxLen = 5
 	}
 	gen(nil, maxLen)
 	var ns []int
@@ -186,6 +186,9 @@ func runC06(e *Env) {
 	var jobs []job
 	for _, h := range hist {
 		for _, n := range ns {
+			if len(h) == 5 && n > 8 {
+				continue // length 5 for N <= 8 only
+			}
 			jobs = append(jobs, job{h, n})
 		}
 	}
@@ -242,9 +245,9 @@ func runC06(e *Env) {
 	}
 	e.R.AddPart(ev.Part{Name: "cli-histories", Enumerated: "real binary: histories of length <= 2 x N in {1,2,3,5,32}; --track 0 and -1 must be refused", Executions: int64(len(cj) + 2), Exhaustive: true})
 
-	depth := 4
+	depth := 5
 	if e.Thorough {
-		depth = 5
+		depth = 6
 	}
 	writerAccounting(e, "C06", true, []int{1, 2, 3, 4}, depth)
 }
